@@ -97,6 +97,13 @@ type Contract struct {
 	// variable that is otherwise only loaded and stored (see
 	// checkPrivateParams); for exported functions it is an assumption.
 	PrivateParams []string
+	// RecvInv: representation invariant of the receiver's type, written over
+	// the receiver's name.  ASSUMED at entry (receiver non-nil), PROVED at every
+	// return, never an obligation of callers.  Justified by closedness, which
+	// is checked: every function of the package that stores to a field of the
+	// receiver's struct type carries this clause itself (checkRecvInvClosed).
+	RecvInv     []*Clause
+	RecvInvName string
 	// AbstractFloatDiv: floating-point quotients are translated as an
 	// uninterpreted function of their operands instead of IEEE division (an
 	// over-approximation: sound, costs precision only); for functions whose
@@ -125,7 +132,7 @@ type ContractFile struct {
 	Ghosts    map[string]string
 }
 
-var kwRe = regexp.MustCompile(`^(func|props|mode|requires|ghostinit|ensures_thorough|ensures|safe|pure|bounded|privatecaptures|privateparam|abstractfloatdiv|assumecalleerequires|modifies|preserves|assumed|lemma|nonnil|loop|invariant|unroll|decreases|site|assert|assume|hint|ghostset|ghostdecl|spec|note|end)\b`)
+var kwRe = regexp.MustCompile(`^(func|props|mode|requires|ghostinit|ensures_thorough|ensures|safe|pure|bounded|privatecaptures|privateparam|abstractfloatdiv|recvinv|assumecalleerequires|modifies|preserves|assumed|lemma|nonnil|loop|invariant|unroll|decreases|site|assert|assume|hint|ghostset|ghostdecl|spec|note|end)\b`)
 // every element of a ghost sequence starts at a constant: forallkey(s, T, ghostat(obj, f(s), "name") == c)
 var ghostInitAllRe = regexp.MustCompile(`^forallkey\(\w+,\s*[\w.]+,\s*ghostat\(.*,\s*"[A-Za-z0-9_]+"\)\s*==\s*-?[0-9]+\)$`)
 var ghostInitRe = regexp.MustCompile(`^ghost\([A-Za-z0-9_.]+,\s*"[A-Za-z0-9_]+"\)\s*==\s*-?[0-9]+$`)
@@ -272,6 +279,19 @@ func ParseContractFile(path, pkgPath string) (*ContractFile, error) {
 			cur.PrivateCaptures = true
 		case "abstractfloatdiv":
 			cur.AbstractFloatDiv = true
+		case "recvinv":
+			fs := strings.Fields(rest)
+			if len(fs) < 2 {
+				return nil, fmt.Errorf("%s:%d: recvinv <receiver name> <invariant over it>", path, rl.line)
+			}
+			body := strings.TrimSpace(rest[len(fs[0]):])
+			c, err := parseExprClause("ensures", fmt.Sprintf("[representation-invariant] implies(%s != nil, %s)", fs[0], body), path, rl.line)
+			if err != nil {
+				return nil, err
+			}
+			cur.RecvInv = append(cur.RecvInv, c)
+			cur.RecvInvName = fs[0]
+			cur.Ensures = append(cur.Ensures, c)
 		case "privateparam":
 			cur.PrivateParams = append(cur.PrivateParams, strings.Fields(rest)...)
 		case "safe":
